@@ -119,4 +119,7 @@ def EstimatorRange (p : Params) : Prop :=
    p.niceLength ≤ 258 ∧ 1 ≤ p.maxChain ∧ p.maxChain ≤ 4096 ∧ 3 ≤ p.minLen ∧ p.minLen ≤ 258 ∧
    p.addPolicy ≤ 4 ∧ (if p.addPolicy = 1 ∨ p.addPolicy = 2 then p.addLimit ≤ 255 else p.addLimit = 0))
 
+instance (p : Params) : Decidable (EstimatorRange p) := by
+  unfold EstimatorRange; infer_instance
+
 end Preflate
